@@ -24,8 +24,7 @@ Code ↔ model map
   `enums = enums[:idx]`                                                                              → `enumLow`, `enumLoop`
 
 `outside`: the expression mentions something this model does not have (a constructor call, `Init[…]`, `Like`, `Object[…]`,
-`TypeSet[…]`, the leaf types with parameters, a name the loader may know, a non-ASCII value in an Enum — its case folding is
-not modelled).  `Expr.outsideB` decides that SYNTACTICALLY, before anything is evaluated, so that the harness can decide the
+`TypeSet[…]`, the leaf types with parameters, a name the loader may know).  `Expr.outsideB` decides that SYNTACTICALLY, before anything is evaluated, so that the harness can decide the
 same thing on the implementation's parse result (twin: harness/syn `Modelled`).
 -/
 namespace Pcore.Syntax
@@ -81,27 +80,6 @@ def RRes.bind {α β : Type} (x : RRes α) (f : α → RRes β) : RRes β :=
 def notParamNames : List Str :=
   ["Any", "Unit", "Undef", "Default", "Scalar", "ScalarData", "Numeric", "Data", "RichData", "Binary"].map String.toList
 
-def isAsciiStr (s : Str) : Bool := s.all fun c => c.toNat < 128
-
-mutual
-/-- does a string leaf with a non-ASCII character occur anywhere in the expression? -/
-def Expr.nonAscii : Expr → Bool
-  | .str s => !isAsciiStr s
-  | .arr es => Expr.nonAsciiL es
-  | .hash es => Expr.nonAsciiE es
-  | .entry k v => Expr.nonAscii k || Expr.nonAscii v
-  | .dtype _ none => false
-  | .dtype _ (some ps) => Expr.nonAsciiL ps
-  | .call _ as => Expr.nonAsciiL as
-  | _ => false
-def Expr.nonAsciiL : List Expr → Bool
-  | [] => false
-  | e :: es => Expr.nonAscii e || Expr.nonAsciiL es
-def Expr.nonAsciiE : List (Expr × Expr) → Bool
-  | [] => false
-  | (k, v) :: es => Expr.nonAscii k || Expr.nonAscii v || Expr.nonAsciiE es
-end
-
 /-- is this (bare or parameterized) type name one the model answers for? -/
 def nameModelled (env : Env) (n : Str) (hasParams : Bool) : Bool :=
   let c := canonName n
@@ -114,7 +92,7 @@ mutual
 def Expr.outsideB (env : Env) : Expr → Bool
   | .dtype n none => !nameModelled env n false
   | .dtype n (some ps) =>
-    !nameModelled env n true || Expr.outsideL env ps || (canonName n == "Enum".toList && Expr.nonAsciiL ps)
+    !nameModelled env n true || Expr.outsideL env ps
   | .arr es => Expr.outsideL env es
   | .hash es => Expr.outsideE env es
   | .entry k v => Expr.outsideB env k || Expr.outsideB env v
@@ -162,7 +140,7 @@ def enumLow (fuel : Nat) (args : List Arg) : RRes Ty :=
       if l.isEmpty then .ok (.enum [] false) else run l
     | _ => run args
 where
-  /-- `NewEnumType(enums, caseInsensitive)`; the case folding of non-ASCII values is outside the model -/
+  /-- `NewEnumType(enums, caseInsensitive)` -/
   fin (vs : List Str) (ci : Bool) : RRes Ty :=
     match newEnum vs ci with
     | some t => .ok t
